@@ -51,6 +51,7 @@ type dkgCase struct {
 	cheated        map[int]bool // recipient idx that received an inconsistent share
 	falseComplaint map[int]int  // complainant idx -> respondent idx (share was fine)
 	badComplaint   map[int]string
+	afterCaught    map[int]bool // this false complainer waits until every cheated member has filed its justified complaint
 	silent         map[int]int // member idx -> round (1,2,3) at which it goes silent
 	lateBlocks     int
 	accepted1      map[int]bool
@@ -136,7 +137,7 @@ func runCase(run *sim.Run, id int) {
 		}})
 	defer w.Close()
 	c := &dkgCase{run: run, id: id, w: w, rng: rng, n: n, t: t, cheatDealer: map[int]int{}, cheated: map[int]bool{}, falseComplaint: map[int]int{},
-		badComplaint: map[int]string{}, silent: map[int]int{}, accepted1: map[int]bool{}, accepted2: map[int]bool{}, cheatMode: map[int]int{}}
+		badComplaint: map[int]string{}, afterCaught: map[int]bool{}, silent: map[int]int{}, accepted1: map[int]bool{}, accepted2: map[int]bool{}, cheatMode: map[int]int{}}
 	c.tw = tssworld.New(w, w.Users[:n])
 	outsider := w.Users[n]
 	gid, err := c.tw.ProposeTransition(c.tw.Members, uint64(t), w.Time.Add(time.Hour))
@@ -163,6 +164,17 @@ func runCase(run *sim.Run, id int) {
 					c.cheatDealer[d2] = r2
 					c.cheated[r2] = true
 					c.cheatMode[d2] = rng.Intn(6)
+				}
+			}
+			// a bystander accuses the cheating dealer as well, but of a share that was correct - and only after the dealer
+			// has been caught by the real victim: a false complaint is a false complaint whoever the respondent is
+			if n >= 3 && rng.Chance(1, 2) {
+				for b := 0; b < n; b++ {
+					if _, isCheat := c.cheatDealer[b]; !isCheat && !c.cheated[b] && b != d {
+						c.falseComplaint[b] = d
+						c.afterCaught[b] = true
+						break
+					}
 				}
 			}
 		case 2: // false complaint about a correct share
@@ -430,6 +442,18 @@ func runCase(run *sim.Run, id int) {
 					}
 				}
 				continue
+			}
+			if c.afterCaught[i] {
+				waiting := false
+				for v := range c.cheated {
+					if pending[v] {
+						waiting = true
+					}
+				}
+				if waiting {
+					continue
+				}
+				c.run.Count("false-complaint-against-an-already-caught-dealer", 1)
 			}
 			m := c.members[i]
 			msg, key, err := c.tw.Round3Msg(m, gid) // REAL cylinder logic
@@ -701,7 +725,7 @@ func main() {
 	}
 	n := run.N(480, 4000)
 	sim.Parallel(n, 16, func(i int) { runCase(run, i) })
-	for _, cn := range []string{"verdict:ACTIVE", "verdict:FALLEN", "tx:r3:justified-complaint:true", "tx:r3:false-complaint:true", "tx:r2:cheating-dealer:true", "tx:r3:complaint-in-another-member's-name:false"} {
+	for _, cn := range []string{"verdict:ACTIVE", "verdict:FALLEN", "tx:r3:justified-complaint:true", "tx:r3:false-complaint:true", "tx:r2:cheating-dealer:true", "tx:r3:complaint-in-another-member's-name:false", "false-complaint-against-an-already-caught-dealer"} {
 		run.Require(cn, 1)
 	}
 	run.Finish()
